@@ -528,14 +528,33 @@ theorem C13_lbfgsb_returns_service_point {β : Type} [Zero β] :
         (init : Ktensor β) (lb : Option β),
       lbfgsbSolve tovec update svc objective init lb =
         (update init (svc (fun v => objective (update init v)) (tovec init) lb).1,
-         (svc (fun v => objective (update init v)) (tovec init) lb).2)) ∧
+         objective (update init (svc (fun v => objective (update init v)) (tovec init) lb).1))) ∧
     (∀ (svc : (List β → β) → List β → Option β → (List β × β) × List (List β))
         (objective : Ktensor β → β) (init : Ktensor β) (lb : Option β),
       lbfgsbSolveInPlace tovecF updateF svc objective init lb =
         lbfgsbSolve tovecF updateF (fun f x l => (svc f x l).1) objective init lb) := by
   refine ⟨fun _ _ _ _ _ _ => rfl, fun svc objective init lb => ?_⟩
   unfold lbfgsbSolveInPlace lbfgsbSolve
-  simp only [updateF_foldl]
+  simp only [updateF_updateF, updateF_foldl]
+
+/-- **The reported final objective** (`info["final_f"]`, after 6b9ef45) is the objective of the
+model that is returned, and — under the optimiser's contract (from a feasible start it returns a
+point that is no worse), with `tovec` / `update` round-tripping on the start — it is at most the
+objective of the starting guess.  The value the optimiser itself reports is not used. -/
+theorem C13_lbfgsb_final_f {β : Type} [LinearOrder β] (tovec : Ktensor β → List β)
+    (update : Ktensor β → List β → Ktensor β)
+    (svc : (List β → β) → List β → Option β → List β × β) (objective : Ktensor β → β)
+    (init : Ktensor β) (lb : Option β) :
+    (lbfgsbSolve tovec update svc objective init lb).2 =
+      objective (lbfgsbSolve tovec update svc objective init lb).1 ∧
+    (update init (tovec init) = init → C13Feasible lb (tovec init) →
+      (∀ (f : List β → β) (x0 : List β), C13Feasible lb x0 →
+        f (svc f x0 lb).1 ≤ f x0 ∧ C13Feasible lb (svc f x0 lb).1) →
+      (lbfgsbSolve tovec update svc objective init lb).2 ≤ objective init) := by
+  refine ⟨rfl, fun hrt hfeas hsvc => ?_⟩
+  have := (hsvc (fun v => objective (update init v)) (tovec init) hfeas).1
+  simp only [hrt] at this
+  exact this
 
 /-- **Reusable, L-BFGS-B.**  A solve leaves the options stored in the `LBFGSB` object exactly
 as they were (in particular no size-dependent tolerance of this problem is written back), and
